@@ -157,8 +157,8 @@ def jobs(tier):
                             continue
                         js.append(Job(f"{t}-{method or 'default'}-{rhs}-neg={'on' if an else 'off'}-{'unit' if unit else 'noisy'}",
                                       "c05:backend", dict(topo=t, method=method, rhs=rhs, allow_negatives=an, unit=unit),
-                                      budget_s=900, max_paths=300, weight=10 if t == "K3" else 1))
+                                      budget_s=900, max_paths=300, weight=10 if t == "K3" else 1, opts=dict(cheap_forks=True)))
     for t in ("T3", "K3"):
         js.append(Job(f"{t}-fix_stress", "c05:backend", dict(topo=t, method="fix_stress", rhs="static", allow_negatives=False),
-                      budget_s=600, max_paths=300, weight=5))
+                      budget_s=600, max_paths=300, weight=5, opts=dict(cheap_forks=True)))
     return js
